@@ -5,7 +5,7 @@ quick:    MC_Accounts exhaustive (2 logins with batches of 2 sub-operations; 3 l
           with and one without rename sub-operations), the Go driver `vh-accounts` executes them on the real server
           (every third script with its logins/names/passwords replaced by random byte strings that are legal file
           names) and records the four views after every step; Trace_Accounts validates the log.
-thorough: 3 logins with batches of 2, batches of 3, several generation batches with different seeds.
+thorough: 3 logins with batches of 2, 2 logins with batches of 3, ten generation batches with different seeds (4400 scripts).
 """
 import json
 import os
@@ -125,8 +125,8 @@ def run(ctx, prop):
     t0 = time.time()
     ctx.build(name="vh-accounts")
     log("BUILD vh-accounts %.1fs" % (time.time() - t0))
-    batches = 1 if quick else 8
-    n_all, n_noren = (80, 100) if quick else (260, 260)
+    batches = 1 if quick else 10
+    n_all, n_noren = (80, 100) if quick else (220, 220)
     # The TLC runs are independent processes on a read-only copy of spec/: the design-level checks run beside
     # generation / execution / validation (results are collected - and failures raised - before the verdict).
     with ThreadPoolExecutor(max_workers=8) as ex:
